@@ -9,6 +9,10 @@
 (*   xgrid / thgrid = 1: the value is the grid point; 0: strictly inside the cell   *)
 (*     (v, v+1) (arbitrary floats and ints, classified by the driver);              *)
 (*   boolean results: "T" / "F" / "exc:<Type>".                                     *)
+(* Events recorded after the bounds of an object were changed through the public    *)
+(* setters (set_start / set_end / angle_set_start / angle_set_end events) carry the *)
+(* NEW bounds and the sig suffix "/after-set": the same clauses apply - the object  *)
+(* must behave as a freshly constructed interval with those bounds.                 *)
 EXTENDS Intervals, IOUtils
 Traces == ndJsonDeserialize(IOEnv.TRACE_FILE)
 
@@ -39,6 +43,14 @@ AngleIvClause(e, A, x, name) ==
   IF e.res \notin {"ok", "offgrid"} THEN Total(e)
   ELSE IF e.res = "offgrid" \/ e.rs > e.re \/ ~AShiftOK(A, x, [a |-> e.rs, len |-> e.re - e.rs]) THEN name ELSE ""
 
+(* end point assignment on an angle interval inside the domain: rejected iff inverted, else the object reports exactly *)
+(* the new bounds x..y (its stored end points are the floats passed in, so grid indices must match, not only modulo 2 pi) *)
+AngleSetClause(e, x, y, exp) ==
+  IF ~InDomain([a |-> e.a, len |-> e.len]) \/ ~AngleSetAdmissible(x, y) THEN "driver/angle-set-inadmissible"
+  ELSE IF exp.res = "reject" THEN (IF e.res \in {"ok", "offgrid"} THEN "C16.RejectInverted" ELSE "")
+  ELSE IF e.res \notin {"ok", "offgrid"} THEN Total(e)
+  ELSE IF e.res = "offgrid" \/ e.rs # exp.a \/ e.re # exp.a + exp.len THEN "C16.Construct" ELSE ""
+
 PI(e) == [s |-> e.s, e |-> e.e]
 PJ(e) == [s |-> e.js, e |-> e.je]
 AI(e) == [a |-> e.a, len |-> e.len]
@@ -57,8 +69,10 @@ Clause(e) ==
     [] e.op = "round"             -> IF e.digits \notin Rounds THEN "driver/round-digits"     \* digits: "None", "0", "1", "2"
                                      ELSE IvClause(e, ExpRound(PI(e), e.digits), "C16.Round")
     [] e.op = "construct"         -> ConstructClause(e, ExpConstruct(e.s, e.e))
-    [] e.op = "set_start"         -> ConstructClause(e, ExpConstruct(e.x, e.e))         \* I.start = x on [s, e]
-    [] e.op = "set_end"           -> ConstructClause(e, ExpConstruct(e.s, e.x))         \* I.end = x on [s, e]
+    [] e.op = "set_start"         -> ConstructClause(e, ExpSetStart(PI(e), e.x))         \* I.start = x on [s, e]
+    [] e.op = "set_end"           -> ConstructClause(e, ExpSetEnd(PI(e), e.x))           \* I.end = x on [s, e]
+    [] e.op = "angle_set_start"   -> AngleSetClause(e, e.x, e.a + e.len, ExpAngleSetStart(AI(e), e.x))
+    [] e.op = "angle_set_end"     -> AngleSetClause(e, e.a, e.x, ExpAngleSetEnd(AI(e), e.x))
     [] e.op = "angle_contains"    -> BoolClause(e, ExpAngleContains(AI(e), Half(e.th, e.thgrid)), "C16.AngleContains")
     [] e.op = "angle_contains_interval" -> BoolClause(e, ExpAngleContainsInterval(AI(e), AJ(e)), "C16.ContainsInterval")
     [] e.op = "angle_overlaps"    -> BoolClause(e, ExpAngleOverlaps(AI(e), AJ(e)), "C16.Overlaps")
